@@ -908,12 +908,17 @@ def run(ctx):
         ctx.violation({"layer": "harness build against /repo", "error": binp},
                       "harness no longer builds against the implementation", no_input=True)
         return
-    n = 260 if ctx.quick else 6000
-    g = G(ctx.seed)
-    scripts = g.scripts(n)
+    n = 260 if ctx.quick else 2500
+    seed = ctx.seed
+    rp = None
     if getattr(ctx, "replay", None):
-        rp = json.load(open(ctx.replay))
-        scripts = [s for s in scripts if s["id"] == rp.get("replay", {}).get("script_id", -1)] or scripts
+        rp = json.load(open(ctx.replay)).get("replay", {})
+        seed = rp.get("seed", seed)
+        n = 260 if rp.get("tier", "quick") == "quick" else 2500
+    g = G(seed)
+    scripts = g.scripts(n)
+    if rp is not None and "script_id" in rp:
+        scripts = [s for s in scripts if s["id"] == rp["script_id"]]
     ctx.log("generated %d scripts" % len(scripts))
     batches = [scripts[i:i + 1500] for i in range(0, len(scripts), 1500)]
     stats = {"runs": 0, "by_out": {}, "lower_bound_runs": 0, "unspecified_runs": 0, "precondition_fault_runs": 0,
